@@ -229,7 +229,7 @@ PropSpec {
     quick_runs: 1980,
     thorough_runs: 49_500,
     default_seed: 1515,
-    rule: "fault-free grid: lead k in -7..=7 x symmetric constant latency 0,10,..,100 ms x fps {30,60,120} = 495 cells, each with seeded tick phase, poll period 1-2 ms (the documented main loop: poll often, advance once per frame), input delay and wall-clock skew of up to two days between the machines (quick: 2 seeds per cell, thorough: 100); window sized so that nobody stalls; 3 s warm-up, 5 s measurement; in a third of the runs quality reports and replies are lost for 50-450 ms windows during the warm-up (never during the measurement). On every measured tick: frames_ahead() within 1 of +k / -k, the two values sum to within 1 of zero, ping within one tick (+1 ms) of the true round trip, remote_frames_behind equals the last quality report received and is within 1 of the other side's local_frames_behind; every WaitRecommendation carries frames_ahead() >= 3 and is >= 60 frames after the previous one; network_stats() gives no numbers in the first second. Non-trivial = >= 100 measured ticks; distinct = distinct executed-schedule hash; a quarter of the cells run in lockstep (window 0, input delay = |k| + latency in frames + 3; both start level and the lagging side then misses exactly |k| ticks; the expected lead is read off the two frame counters, because whoever ticks first stalls until the other side's first inputs arrive)",
+    rule: "fault-free grid: lead k in -7..=7 x symmetric constant latency 0,10,..,100 ms x fps {30,60,120} = 495 cells, each with seeded tick phase, poll period 1-2 ms (the documented main loop: poll often, advance once per frame), input delay and wall-clock skew of up to two days between the machines (quick: 2 seeds per cell, thorough: 100); window sized so that nobody stalls; 3 s warm-up, 5 s measurement; in a third of the runs quality reports and replies are lost for 50-450 ms windows during the warm-up (never during the measurement). On every measured tick: frames_ahead() within 1 of +k / -k, the two values sum to within 1 of zero, ping within one tick (+1 ms) of the true round trip, remote_frames_behind equals the last quality report received and is within 1 of the other side's local_frames_behind; every WaitRecommendation carries frames_ahead() >= 3 and is >= 60 frames after the previous one; network_stats() gives no numbers in the first second. Non-trivial = >= 100 measured ticks; distinct = distinct executed-schedule hash; a quarter of the cells run in lockstep (window 0, input delay = |k| + latency in frames + 3; both start level and the lagging side then misses exactly |k| ticks; the expected lead is read off the two frame counters, because whoever ticks first stalls until the other side's first inputs arrive); a fifth of the rollback cells have a third peer that dies early (same latency to both, default timeouts): the survivors start level, cut it off, and only then does one of them miss |k| ticks - the dead endpoint must not disturb what the survivors estimate about each other",
     nontrivial: nt_c15,
     required_probes: &["timesync_ticks_measured", "wait_recommendations_checked", "wait_recommendation"],
     assumptions: &["the simulated user follows the documented main loop (poll every 1-2 ms): polling only once per tick adds up to a tick of waiting to every measured round trip, which is the user's quantisation", "tolerances of +-1 frame / one tick are derived from poll granularity and integer truncation, not tuned"],
